@@ -215,3 +215,19 @@ PROPS["C05"] = dict(
     tests=[dict(name="TestVF_C05", env=dict(VERIF_CASE_LIMIT=300),
                 quick=dict(checks=2400, shards=16, timeout=600), thorough=dict(checks=120000, shards=32, timeout=6000))],
 )
+
+PROPS["C10"] = dict(
+    level="fault_enumeration", engine="E3 session", bins=True,
+    technique="fault enumeration: a stop injected at every (direction, message index, before|after) of real transfers, by every initiator; bounded-time, outcome and file-system oracles",
+    level_text="For each scenario (single files / directory with resume hash exchange / archive / binary / old protocols; destinations with pre-existing colliding or partial content) "
+               "a fault-free dry run numbers the protocol messages; then the transfer is re-run once per (direction, message index, before|after) x stop kind (keep / delete) x initiator "
+               "(exported StopTransferringFiles, the real Ctrl-C + prompt UI path, SIGINT and SIGTERM to the real server). Oracle: both sides end within 12 s of the stop (T = 3 s configured), the "
+               "server reports Stopped... or Saved, success only with every file complete and identical, delete removes exactly what this transfer created or had begun to replace, everything "
+               "else at the destination is byte- and mtime-identical, plain stop keeps every file whose MD5 acknowledgement had passed before the stop.",
+    level_note="The quick tier thins the enumeration with a stride that depends on VERIF_SEED; the thorough tier visits every point. Timing verdicts are re-run twice and reported only if they "
+               "reproduce. Signals are not sent at the trigger line itself (the server installs its handlers just after printing it).",
+    rule="non-trivial = the stop fired and the transfer ended stopped (not success); distinct by SHA-1 of the case JSON (scenario, event, kind, initiator)",
+    tests=[dict(name="TestVF_C10", rapid=False, env=dict(VERIF_CASE_LIMIT=300),
+                quick=dict(shards=32, timeout=1200, env=dict(VERIF_C10_STRIDE=12)),
+                thorough=dict(shards=32, timeout=14000, env=dict(VERIF_C10_STRIDE=1)))],
+)
